@@ -299,6 +299,8 @@ def rule_depth_units(ctx):
 
 RULES = [("one-site", rule_one_site), ("spine-panics", rule_spine_panics), ("poll", rule_poll), ("time-budget", rule_time_budget), ("nonblocking", rule_nonblocking),
          ("depth-units", rule_depth_units), ("legal-src", rule_legal_src)]
+# "legal" in "exactly one legal bestmove" rests on the legality filter
+RULES += engine.premise_rules("c01", ["filter", "probe"])
 
 
 def run(tier):
